@@ -794,7 +794,7 @@ def _split_method_chain(expr):
     return head, calls
 
 
-_ITER_METHODS = {'iter', 'into_iter', 'flat_map', 'map', 'copied', 'chain', 'cloned', 'filter'}
+_ITER_METHODS = {'iter', 'into_iter', 'flat_map', 'map', 'copied', 'chain', 'cloned', 'filter', 'enumerate'}
 
 
 def _is_iter_expr(expr):
@@ -911,6 +911,14 @@ def _compile_seg(expr, sink, g):
 
     if src == 'into_iter' and not adaptors:
         return sink(head, 'vec')        # an owned vector consumed as a whole
+    if src == 'into_iter':
+        # an owned vector consumed element by element; `.enumerate()` pairs each element with a running counter
+        if adaptors and adaptors[0][0] == 'enumerate':
+            return (f'{{ let mut c_{i}: usize = 0; for e_{i} in it_{i}: {head} {{ let en_{i} = (c_{i}, e_{i}); c_{i} = c_{i} + 1; '
+                    f'{consume(f"en_{i}", "val", adaptors[1:])} }} }}')
+        return f'for e_{i} in it_{i}: {head} {{ {consume(f"e_{i}", "val", adaptors)} }}'
+    if src == 'iter' and adaptors and adaptors[0][0] == 'enumerate':
+        return f'for {i} in 0..{head}.len() {{ let en_{i} = ({i}, &{head}[{i}]); {consume(f"en_{i}", "val", adaptors[1:])} }}'
     if src == 'iter':
         return f'for {i} in 0..{head}.len() {{ let e_{i} = &{head}[{i}]; {consume(f"e_{i}", "ref", adaptors)} }}'
     w = g.fresh('w')
@@ -1349,6 +1357,18 @@ def unoption_pred(f):
             break
         recv = f.body[st:m.start()].strip()
         f.body = f.body[:st] + f'(match {recv} {{ Some(v_) => Some(*v_), None => {mi.group(1).strip().rstrip(",").strip()} }})' + f.body[close + 1:]
+        n += 1
+    while True:
+        m = re.search(r'\.\s*or_else(\()\s*\|\s*\|', f.body)
+        if not m:
+            break
+        close = match_brace(f.body, m.start(1))
+        mi = re.match(r'\s*\|\s*\|\s*(.*)$', f.body[m.start(1) + 1:close], flags=re.S)
+        st = _receiver_start(f.body, m.start())
+        if not mi or st < 0:
+            break
+        recv = f.body[st:m.start()].strip()
+        f.body = f.body[:st] + f'(match {recv} {{ Some(v_) => Some(v_), None => {mi.group(1).strip().rstrip(",").strip()} }})' + f.body[close + 1:]
         n += 1
     if n:
         f.rewrites.append(('R6', f'{n}x Option predicate/alternative combinator with a closure -> match (closure body verbatim)', ''))
